@@ -61,6 +61,17 @@ CHECKS.update({
    text="For vector, buffer, queue and string states (constructed or API-built), one allocating operation under every subset of failing allocation requests, then the same operation with a healthy allocator, then destruction: failure must be reported, the container must equal its previous abstract state and satisfy its invariants, the retry must succeed, and every block handed out must be released exactly once (double free / invalid free are executor findings).",
    note=E2NOTE + " Native replay installs an allocator with the model's failure mask into a_alloc."),
 })
+REALNOTE = " Exact-real domain: a_real is mapped to z3 Real (rational arithmetic), so the verdict is about the mathematical formula for ALL real inputs; IEEE rounding is outside the claim (stated in the evidence)."
+CHECKS.update({
+ "C09": dict(engine="llsym", cat="model_checking", design="4/C09",
+   technique="symbolic execution of src/linalg.c IR (llsym) with a_real as z3 Real: every output element compared with its defining expression by the solver; exact-size operand objects for the no-stray-write clause",
+   text="All four product variants for every row/inner/column dimension 1..3 (4 thorough), both transposes, and all identity/triangle/diagonal/triangular kernels for square orders and rectangular shapes up to 4x4 (5x5): every result element equals its definition for all real operand values, inputs unmodified, results (pre-filled with symbolic junk) fully overwritten, no access outside the arrays.",
+   note=E2NOTE + REALNOTE),
+ "C15": dict(engine="llsym", cat="model_checking", design="4/C15",
+   technique="symbolic execution of src/trajpoly{3,5,7}.c, src/poly.c IR (llsym) with a_real as z3 Real: boundary conditions, derivative consistency and Horner identities decided by z3 (nonlinear real arithmetic)",
+   text="For all real durations ts > 0, all real boundary data and a symbolic query time: position/velocity/acceleration/jerk at 0 and ts equal the requested values exactly (in the reals), coefficient accessors and evaluators are the successive formal derivatives, eval/evar equal their defining sums for coefficient vectors of length 0..6 (9), order reversal is an involution.",
+   note=E2NOTE + REALNOTE + " Double literals that are roundings of simple rationals (1/6) denote those rationals."),
+})
 NOT_YET = {}
 
 def main():
